@@ -371,3 +371,63 @@ def run(ctx):
     # on, not with whatever the metaschema's own $schema would select
     from .c11 import rule_wiring
     rule_wiring(ctx, "R20.9")
+    rule_named_class(ctx)
+
+
+def _named_eval(prog):
+    """cli._namedAnyWithDefault evaluated with a recording stand-in for namedAny and a registry that holds *other* classes under the
+    very names asked for: -> '' | difference | None"""
+    from ..tokeval import Ev, Obj, Undecided, PyRaise
+    from ..common import find_method
+    try:
+        f = prog.func("cli._namedAnyWithDefault")
+    except AnalysisError:
+        return None
+    try:
+        for name, want in (("Draft4Validator", "jsonschema.Draft4Validator"), ("Draft7Validator", "jsonschema.Draft7Validator"), ("MyValidator", "jsonschema.MyValidator"),
+                           ("pkg.mod.Cls", "pkg.mod.Cls"), ("a.B", "a.B")):
+            ev = Ev(prog, fuel=20000)
+            asked = []
+            sentinel = object()
+
+            def named_any(n, asked=asked, sentinel=sentinel):
+                asked.append(n)
+                return sentinel
+            ev.override_func("_reflect.namedAny", named_any)
+
+            class Shadow:
+                """an in-house class registered under a version of its own whose __name__ happens to be a stock class's"""
+                def __init__(self, nm):
+                    self.__name__ = nm
+                    self.META_SCHEMA = {}
+            reg = ev.module_value("validators", "validators")
+            reg["draft 4"] = Shadow("Draft4Validator")
+            reg["mine"] = Shadow("MyValidator")
+            reg["latest"] = Shadow("Draft7Validator")
+            got = ev.call_func(f, [name], {})
+            if asked != [want] or got is not sentinel:
+                return ("--validator %s resolves to %r (objects asked for by name: %r); it names the object %s, whatever classes are registered under "
+                        "whichever versions" % (name, got if got is not sentinel else "<that object>", asked, want))
+    except Undecided:
+        return None
+    except PyRaise as pr:
+        return "raises %s (%s)" % (pr.name, pr.msg)
+    return ""
+
+
+def rule_named_class(ctx, rid="R20.10"):
+    prog = ctx.prog
+    r = ctx.rule(rid, "an explicitly named class is that name's object: `--validator X` is jsonschema.X (or the dotted name given), not a registry lookup", floor=1)
+    try:
+        sem = _named_eval(prog)
+    except RecursionError:
+        sem = None
+    f = prog.funcs.get("cli._namedAnyWithDefault") or prog.func("cli.parse_args")
+    if sem is None:
+        r.ok(site(f), "NOT DECIDED: outside the evaluated fragment")
+        r.note(site(f), "%s not decided" % rid)
+    elif sem == "":
+        r.ok(site(f), "five names (bare and dotted) with a registry holding look-alike class names: the named object is asked for, once")
+    else:
+        r.fail("%s|named-class" % f.qual, site(f), sem)
+    return r
